@@ -34,6 +34,9 @@ type DialFail struct {
 	CLen     int  `json:"c_len"`
 	ULen     int  `json:"u_len"`
 	PPv      int  `json:"proxy_protocol"` // 0, 1, 2: header sent to every peer before relaying
+	// Reset: the failing peer does not refuse the connection, it accepts and resets it at once: the dial succeeds and
+	// (with a PROXY header configured) the write of the header may fail
+	Reset bool `json:"reset,omitempty"`
 }
 
 func genDialFail(seed int64, i int) *DialFail {
@@ -49,6 +52,12 @@ func genDialFail(seed int64, i int) *DialFail {
 	d.CLen = []int{1, 100, 5000}[r.Intn(3)]
 	d.ULen = []int{1, 100, 5000}[r.Intn(3)]
 	d.PPv = []int{0, 0, 1, 2}[r.Intn(4)]
+	if r.Intn(2) == 0 {
+		d.Reset, d.Recover = true, false
+		if d.PPv == 0 {
+			d.PPv = 1 + r.Intn(2)
+		}
+	}
 	return d
 }
 
@@ -56,8 +65,9 @@ func runDialFailMode(c *fw.Ctx) {
 	debug.SetGCPercent(-1)
 	canary := oracle.StartCanary()
 	defer canary.Stop()
-	n := c.Pick(60, 800)
+	n := c.Pick(120, 1200)
 	baseFDs := countFDs()
+	fdReported := false
 	var mine []int
 	for i := 0; i < n; i++ {
 		if c.Mine(i) {
@@ -74,7 +84,22 @@ func runDialFailMode(c *fw.Ctx) {
 			}(i)
 		}
 		wg.Wait()
-		if w%60 == 54 {
+		// no session is in flight: every socket the handlers opened must be closed by now (the collector is off, so
+		// a connection that was dropped without Close keeps its descriptor)
+		fds := countFDs()
+		for dl := time.Now().Add(3 * time.Second); fds > baseFDs && time.Now().Before(dl); fds = countFDs() {
+			time.Sleep(10 * time.Millisecond)
+		}
+		if fds > baseFDs && !fdReported {
+			fdReported = true
+			var kinds []string
+			for _, i := range mine[w:min(w+6, len(mine))] {
+				d := genDialFail(c.Seed, i)
+				kinds = append(kinds, fmt.Sprintf("peers=%d fail=%d try=%dms recover=%v pp=v%d reset=%v", d.Peers, d.FailPeer, d.TryMs, d.Recover, d.PPv, d.Reset))
+			}
+			c.Violation("C03 fd-leak [dial-failure]", fmt.Sprintf("%d file descriptors more than at the start are still open after a wave of dial-failure sessions finished (collector off): a connection the handler opened was dropped without Close", fds-baseFDs), map[string]any{"wave": kinds})
+		}
+		if w%60 == 54 && !fdReported {
 			runtime.GC() // every session so far has been judged
 		}
 	}
@@ -114,6 +139,30 @@ func runDialFail(c *fw.Ctx, canary *oracle.Canary, d *DialFail) {
 	defer res.Release()
 	for p := 0; p < d.Peers; p++ {
 		U[p] = oracle.Stream(domUp, uint64(fw.Mix(c.Seed, "dfu", d.Index, p)), d.ULen)
+		if p == d.FailPeer && d.Reset {
+			// accept and reset at once, in the accept loop itself: the sooner the RST is out, the more often the proxy's
+			// write of the PROXY header finds the connection already reset
+			l, err := net.Listen("tcp", "127.0.0.1:0")
+			if err != nil {
+				c.Inconclusive("cannot start upstream: " + err.Error())
+				return
+			}
+			defer l.Close()
+			go func() {
+				for {
+					cn, err := l.Accept()
+					if err != nil {
+						return
+					}
+					if tc, ok := cn.(*net.TCPConn); ok {
+						_ = tc.SetLinger(0)
+					}
+					_ = cn.Close()
+				}
+			}()
+			dials = append(dials, "tcp/"+l.Addr().String())
+			continue
+		}
 		if p == d.FailPeer {
 			dials = append(dials, "tcp/"+res.HostPort)
 			continue
@@ -229,21 +278,23 @@ func runDialFail(c *fw.Ctx, canary *oracle.Canary, d *DialFail) {
 				abandoned++
 			case string(recv) == string(C):
 				full++
+			case d.Reset && len(recv) <= len(C) && string(recv) == string(C[:len(recv)]):
+				// (a peer that resets breaks the relay at an arbitrary point: the others get a prefix)
 			default:
 				report("client-to-upstream "+oracle.DiffKind(recv, C), fmt.Sprintf("peer %d received a stream that is neither empty (abandoned attempt) nor the client's stream: %s", p, oracle.Diff(recv, C)), nil)
 			}
 		}
-		if relayed && full != 1 {
+		if relayed && full != 1 && !d.Reset {
 			report("upstream-conn-count", fmt.Sprintf("the session was relayed, yet peer %d received the client's stream on %d connections", p, full), nil)
 		}
 		if !relayed && full != 0 {
 			report("relayed-despite-failure", fmt.Sprintf("the handler failed with %q, yet peer %d received the client's stream", spanErr, p), nil)
 		}
 	}
-	if !d.Recover && relayed {
+	if !d.Recover && relayed && !d.Reset {
 		report("no-error-for-refused-peer", "one peer refused every connection, yet the handler reported success", nil)
 	}
-	if relayed {
+	if relayed && !d.Reset {
 		want := 0
 		for p := range U {
 			want += len(U[p])
@@ -251,6 +302,18 @@ func runDialFail(c *fw.Ctx, canary *oracle.Canary, d *DialFail) {
 		if len(got) != want {
 			report("upstream-to-client wrong-length", fmt.Sprintf("the client received %d bytes, the peers sent %d", len(got), want), nil)
 		}
+	}
+	if d.Reset {
+		cat := "relayed"
+		switch {
+		case strings.Contains(spanErr, "write"):
+			cat = "header-write-failed"
+		case strings.Contains(spanErr, "dial"):
+			cat = "dial-failed"
+		case spanErr != "":
+			cat = "other-error"
+		}
+		c.Obs("dialfail_reset_peer_"+cat, 1)
 	}
 	c.Obs("dialfail_sessions", 1)
 	c.Obs("dialfail_abandoned_upstream_conns_closed", int64(abandoned))
